@@ -51,3 +51,5 @@ Definition eval_release := eval_top true binop_impl builtin_impl.
 Definition eval_debug := eval_top false binop_impl builtin_impl.
 Definition run_program (inputs : list (string * value)) (prog : list stmt) : string :=
   show_run (run eval_release (init_session inputs) prog).
+Definition run_session (stop : bool) (inputs : list (string * value)) (prog : list stmt) : string :=
+  show_trace (run_trace eval_release stop (init_session inputs) prog).
